@@ -19,6 +19,7 @@ import (
 	ocispec "github.com/opencontainers/image-spec/specs-go/v1"
 	oras "oras.land/oras-go/v2"
 	"oras.land/oras-go/v2/content"
+	"oras.land/oras-go/v2/content/file"
 	"oras.land/oras-go/v2/content/memory"
 	"oras.land/oras-go/v2/content/oci"
 	"oras.land/oras-go/v2/errdef"
@@ -160,6 +161,7 @@ func TestDrive(t *testing.T) {
 			}
 			// target
 			var und content.Storage
+			closeTarget := func() {}
 			switch c.Target {
 			case "oci":
 				dir := t.TempDir()
@@ -168,6 +170,22 @@ func TestDrive(t *testing.T) {
 					t.Fatal(err)
 				}
 				und = s
+			case "file":
+				// a file store keeps named content under its name: the manifest is given one (unless the same manifest is
+				// packed twice below - a name can be taken once)
+				fs, err := file.New(t.TempDir())
+				if err != nil {
+					t.Fatal(err)
+				}
+				closeTarget = func() { fs.Close() }
+				und = fs
+				if c.Ann != "created" {
+					named := map[string]string{ocispec.AnnotationTitle: "manifest.json"}
+					for k, v := range ann {
+						named[k] = v
+					}
+					ann = named
+				}
 			default:
 				und = memory.New()
 			}
@@ -263,10 +281,17 @@ func TestDrive(t *testing.T) {
 				m["desc"] = map[string]any{"mt": desc.MediaType, "dg": desc.Digest.String(), "size": desc.Size, "at": desc.ArtifactType, "ann": pairs(desc.Annotations)}
 				stored := map[string]any{"found": false, "dg": "", "size": 0}
 				var body []byte
+				// read back through the descriptor as returned and through the bare one
 				if rc, ferr := und.Fetch(ctx, ocispec.Descriptor{MediaType: desc.MediaType, Digest: desc.Digest, Size: desc.Size}); ferr == nil {
 					body, _ = io.ReadAll(rc)
 					rc.Close()
-					stored = map[string]any{"found": true, "dg": digest.FromBytes(body).String(), "size": len(body)}
+					if rc2, ferr2 := und.Fetch(ctx, desc); ferr2 == nil {
+						body2, _ := io.ReadAll(rc2)
+						rc2.Close()
+						if ok, _ := und.Exists(ctx, desc); ok && bytes.Equal(body, body2) {
+							stored = map[string]any{"found": true, "dg": digest.FromBytes(body).String(), "size": len(body)}
+						}
+					}
 				}
 				m["stored"] = stored
 				var p struct {
@@ -311,9 +336,7 @@ func TestDrive(t *testing.T) {
 			}
 			tr.Begin(n)
 			tr.Emit(m)
-			if c.Target == "oci" {
-				// nothing to close
-			}
+			closeTarget()
 		}
 	}
 	rot.Close()
